@@ -2,12 +2,13 @@
    Termination: [run] and [compile] are structurally recursive Coq functions over finite values.
    No panic: well-formed values (Model/Wfe.v: no nil interface where a method is called, a plain
    grouping element has a set) render normally under every option combination and supplied map.
-   Reachability: every statement value obtained from an entry point (Select, InsertInto, Update, DeleteFrom) by
+   Reachability: every statement value obtained from an entry point (Select, SelectJson, InsertInto, Update,
+   DeleteFrom, With, WithRecursive) by
    any number of the modelled builder methods (Model/Api.v, compared call by call with the implementation) is
    well-formed, provided the expressions handed in are well-formed themselves - so no sequence of those calls
    can produce a value that makes the renderer panic (C20_reachable_no_panic). *)
 From Coq Require Import String List ZArith.
-From QRB Require Import Base.Bytes Model.W Model.Values Model.Compile Model.WModes Model.Wfe Model.CompileFacts Model.Api Model.ApiFacts.
+From QRB Require Import Base.Bytes Model.W Model.Values Model.Compile Model.WModes Model.Wfe Model.CompileFacts Model.Api Model.ApiFacts Model.Ctor Model.CtorFacts.
 Import ListNotations.
 
 Section C20.
@@ -33,6 +34,22 @@ Section C20.
       wfe recv = true -> forallb (aarg_wfe V) args = true -> query_ok V (mkey rtype meth) args ->
       api rtype meth recv args = Some r -> wfe r = true.
   Proof. exact (api_wfe V). Qed.
+
+  (* the expression side: every modelled constructor (Arg, Args, Bind, N, literals, Array, Exps, And, Or, Not, Neg, Exists,
+     Any, All, Func, FuncExp, Agg, Coalesce, NullIf, Greatest, Least, RowsFrom) and every modelled method of an expression
+     value (the 35 operators and predicates inherited from ExpBase, Escape, the refinements of FuncBuilder,
+     AggExpBuilder, RowsFromBuilder) yields a well-formed value with a well-formed self handle ([hwf]) from well-formed
+     arguments: expressions composed through them are fit to be handed to the statement builders above *)
+  Theorem C20_constructor_preserves_wf :
+    forall name args (r : exp V),
+      forallb (aarg_wfe V) args = true -> lookup_h V name exp_ctors args = Some r -> hwf V r = true.
+  Proof. exact (ctor_wfe V). Qed.
+
+  Theorem C20_method_preserves_wf :
+    forall key (recv : exp V) args r,
+      hwf V recv = true -> forallb (aarg_wfe V) args = true ->
+      lookup_h V key (exp_meth_handlers recv) args = Some r -> hwf V r = true.
+  Proof. exact (meth_wfe V). Qed.
 
   (* ... hence every statement reachable through the modelled API renders without a panic, under every
      option combination and supplied map, whatever the length of the call chain *)
@@ -62,7 +79,22 @@ Proof.
   apply (chain_reachable nat "Select" [AExps [a]] chain); vm_compute; reflexivity.
 Qed.
 
+(* ... and so is With("r").As(Select(a)).Select(a) *)
+Example C20_reachable_with_example :
+  let a := EIdent (@ENil nat) "a" in
+  let q := ESelect [] [] (p_set_list nat (empty_parts nat) [(a, "")]) in
+  reachable nat (ESelect [mkWithq false "r" [] None q None] [] (p_set_list nat (empty_parts nat) [(a, "")])).
+Proof.
+  intros a q.
+  eapply (reach_with nat "Select" (WB [mkWithq false "r" [] None q None]) [AExps [a]]); [|reflexivity|vm_compute; reflexivity].
+  eapply (rw_step nat "As" (WWB [mkWithq false "r" [] None ENil None]) [AExp q]); [|reflexivity|vm_compute; reflexivity].
+  eapply (rw_entry nat "With" [AStr "r"]). vm_compute. reflexivity.
+Qed.
+
 Print Assumptions C20_no_panic.
+Print Assumptions C20_constructor_preserves_wf.
+Print Assumptions C20_method_preserves_wf.
+Print Assumptions C20_reachable_with_example.
 Print Assumptions C20_builder_call_preserves_wf.
 Print Assumptions C20_reachable_no_panic.
 Print Assumptions C20_reachable_example.
